@@ -21,20 +21,23 @@ fn main() {
     let prop = args.pos.first().cloned().unwrap_or_default();
     vcore::panics::install(!args.flag("loud"));
     let mut rep = Report::new(&prop.to_uppercase(), args.seed());
-    match prop.as_str() {
-        "c02" => c02::run(&args, &mut rep),
-        "c04" => c04::run(&args, &mut rep),
-        "c01" => c02::run_leg(&args, &mut rep, "C01"),
-        "c07" => c02::run_leg(&args, &mut rep, "C07"),
-        "c19" => c19::run(&args, &mut rep),
-        "c15" => c15::run(&args, &mut rep),
-        "c17" => c17::run(&args, &mut rep),
-        "c20" => c20::run(&args, &mut rep),
-        "smoke" => workload::smoke(&args, &mut rep),
-        other => {
-            eprintln!("unknown property {other}");
-            std::process::exit(2);
+    // a panic that escapes the monitor's own guards (e.g. out of a Drop of a library type) still yields a fragment
+    vcore::guarded(&mut rep, &args, |rep| {
+        match prop.as_str() {
+            "c02" => c02::run(&args, rep),
+            "c04" => c04::run(&args, rep),
+            "c01" => c02::run_leg(&args, rep, "C01"),
+            "c07" => c02::run_leg(&args, rep, "C07"),
+            "c19" => c19::run(&args, rep),
+            "c15" => c15::run(&args, rep),
+            "c17" => c17::run(&args, rep),
+            "c20" => c20::run(&args, rep),
+            "smoke" => workload::smoke(&args, rep),
+            other => {
+                eprintln!("unknown property {other}");
+                std::process::exit(2);
+            }
         }
-    }
+    });
     rep.finish(args.get("out"));
 }
